@@ -5,6 +5,7 @@ from ..astx import (calls_in, dotted, norm, src, iter_nodes, aliases_of, assigne
                     assigned_names, const_value, is_const, parent_chain)
 from ..lib import (call_arg, relation, truth, other, cmp_views, core, holds_region, conditions, found_test, found_tests, path_tests, entails_empty, paths_entail_empty, eval_conditions, relation_tests, atom_key, expand_condition, mode_mismatch_conditions, cfg_nodes_with_call, node_calls, returns, raises, raised_class, stmt_assigns_attr,
                    callee_last, guard_region, find_test_nodes, compare_parts, is_name, is_self_attr, node_roots)
+from ..lib import *      # noqa: F401,F403  (path-condition helpers)
 from ..linear import ctext, lin, Lin, slice_bounds
 from ..loader import AnalysisError
 
@@ -93,16 +94,9 @@ def check_sizes(c, f):
         if not ok and L is not None and L.const == 0 and L.terms.get(size) == 1 and len(L.terms) == 2:
             other = [t for t in L.terms if t != size][0]
             if L.terms[other] == -1 and other.startswith('len('):
-                # needs the guard len(acc) < size on the way in
-                def conj(e):
-                    if isinstance(e, ast.BoolOp) and isinstance(e.op, ast.And):
-                        return [y for v in e.values for y in conj(v)]
-                    return [e]
-                tests = [t for t in g.nodes if t.kind == 'test' and any(
-                    isinstance(x, ast.Compare) and norm(x.left) == other and isinstance(x.ops[0], ast.Lt) and is_name(x.comparators[0], size)
-                    for x in conj(t.ast))]
-                ok = any(n in guard_region(g, t, 'true') for t in tests)
-                wit = 'requested %r; guard %s < %s %s' % (L, other, size, 'dominates' if ok else 'missing')
+                # needs the guard len(acc) < size on the way in (loop condition, in-loop break, nested if: all the same path condition)
+                ok = ('%s < %s' % (other, size), True) in loop_entry_conditions(g, n)
+                wit = 'requested %r; guard %s < %s %s' % (L, other, size, 'holds on the way in' if ok else 'missing')
         c.check(ok, f, k, 'the read asks for at most `size` (never more than the caller allowed)', witness=wit, kind='alg', tag='req:' + norm(k)[:50])
     if f.qual.startswith('popen_spawn:'):
         # complementary slices
